@@ -38,18 +38,81 @@ def _glob(P, name):
     return None
 
 
+def hex_encoder_digits(R, P):
+    """TABLES/hex-encoder: every byte the hex encoders store is the lower-case digit of a 4-bit value.  NUM, every state at a
+    store into the output: the value stored is T[n] for the table T == "0123456789abcdef" and an index n in 0..15, or an
+    arithmetic form c0 + c1*n that equals that digit for every n the path allows (a digit helper with a range test)."""
+    want = "0123456789abcdef"
+    for name in ("aws_hex_encode", "aws_hex_encode_append_dynamic"):
+        f = P.fn(name)
+        if not R.require(f is not None, "%s not found" % name):
+            continue
+        stores = []
+        for b in f.blocks.values():
+            for el in b.elems:
+                if el["k"] == "bin" and el["op"] == "=":
+                    l_ = RU.uncast(f, el["a"][0])
+                    if l_ is not None and l_["k"] == "index" and "buffer" in f.show(l_["a"][0], alias=True):
+                        stores.append(el)
+        if not R.require(len(stores) >= 2, "%s: stores into the output not found" % name):
+            continue
+        num = Num(f, P, C04.ParserHooks(), max_paths=20000)
+        try:
+            sts = num.states_at({s_["id"] for s_ in stores})
+        except Limit as ex:
+            R.broken(str(ex))
+            continue
+        ok, det, n = True, "", 0
+        for s_ in stores:
+            for st in sts.get(s_["id"], []):
+                v = num.val(s_["a"][1], st)
+                if v is not None and v.is_const() and v.cval() == 0:
+                    continue  # the terminating NUL
+                n += 1
+                good = False
+                if v is not None and len(v.atoms()) == 1 and v.degree() <= 1:
+                    (a,) = tuple(v.atoms())
+                    tix = (st.notes.get("tabidx") or {}).get(a)
+                    if tix is not None and v == Poly.atom(a):
+                        tab, ix = tix
+                        lo, hi = num.simple_bounds(st, ix) if ix is not None else (None, None)
+                        good = "".join(map(chr, tab[:16])) == want and lo is not None and hi is not None and 0 <= lo and hi <= 15
+                        if not good:
+                            det = "table %r read at %r" % ("".join(map(chr, tab[:16])), ix)
+                    else:
+                        lo, hi = num.simple_bounds(st, Poly.atom(a))
+                        if lo is not None and hi is not None and 0 <= lo <= hi <= 15:
+                            c1 = (v - Poly.const((v - Poly.atom(a) * 0).t.get((), 0))).t.get((a,), 0) if False else None
+                            vals = []
+                            for k in range(lo, hi + 1):
+                                vk = v.subst({a: Poly.const(k)})
+                                vals.append(vk.cval() if vk.is_const() else None)
+                            good = all(x is not None and 0 <= x < 256 and chr(x) == want[k] for k, x in zip(range(lo, hi + 1), vals))
+                            if not good:
+                                det = "nibble values %d..%d are written as %s" % (lo, hi, [chr(x) if x is not None and 32 <= x < 127 else x for x in vals])
+                        else:
+                            det = "the value stored (%r) is not a function of a 4-bit value" % (v,)
+                else:
+                    det = "the value stored (%r) is not a function of a 4-bit value" % (v,)
+                ok = ok and good
+        R.check(ok and n >= 2, "TABLES", "%s:digits" % name, "%s()" % name, "every digit stored is \"0123456789abcdef\"[nibble] (%d states)" % n,
+                "%s does not write the lower-case hex digit of each nibble: %s - the text does not decode back to the bytes" % (name, det))
+
+
 def tables(R, P):
     enc, dec, hexc = _glob(P, "BASE64_ENCODING_TABLE"), _glob(P, "BASE64_DECODING_TABLE"), _glob(P, "HEX_CHARS")
     sent = (P.globals.get("BASE64_SENTINEL_VALUE") or {}).get("init", {}).get("int")
-    if not R.require(enc is not None and dec is not None and hexc is not None and sent is not None, "codec tables not found in %s" % ENC):
+    if not R.require(enc is not None and dec is not None and sent is not None, "codec tables not found in %s" % ENC):
         return
+    hex_encoder_digits(R, P)
     R.check("".join(map(chr, enc[:64])) == RFC4648, "TABLES", "base64-alphabet", ENC, "the encoding table is the RFC 4648 alphabet", "the base64 encoding table is not the RFC 4648 alphabet")
     inv = len(dec) == 256 and all(dec[enc[i]] == i for i in range(64))
     R.check(inv, "TABLES", "base64-decode-inverts-encode", ENC, "DEC[ENC[i]] == i for all 64 symbols", "the decoding table does not invert the encoding table")
     others = [i for i in range(256) if i not in enc[:64] and i != ord("=") and dec[i] != 0xDD] if len(dec) == 256 else [0]
     R.check(not others and len(dec) == 256 and dec[ord("=")] == sent == 0xFF, "TABLES", "base64-decode-rejects-rest", ENC, "'=' maps to the sentinel, every non-alphabet byte to the invalid marker",
             "bytes %s outside the alphabet are not marked invalid (or '=' is not the sentinel)" % others[:6])
-    R.check("".join(map(chr, hexc[:16])) == "0123456789abcdef", "TABLES", "hex-alphabet", ENC, "hex digits are lower-case 0-9a-f", "the hex digit table is not 0123456789abcdef")
+    if hexc is not None:
+        R.check("".join(map(chr, hexc[:16])) == "0123456789abcdef", "TABLES", "hex-alphabet", ENC, "hex digits are lower-case 0-9a-f", "the hex digit table is not 0123456789abcdef")
     f = P.fn("s_hex_decode_char_to_int")
     if not R.require(f is not None, "s_hex_decode_char_to_int not found"):
         return
@@ -456,7 +519,42 @@ VEC = {"_mm256_loadu_si256": (0, 32), "_mm256_storeu_si256": (0, 32), "_mm256_ld
 HELPER_REQ = {"decode": {"in": 32, "out": 24}}
 
 
+LANES = {"_mm256_movemask_epi8": 32, "_mm_movemask_epi8": 16, "_mm256_movemask_ps": 8, "_mm256_movemask_pd": 4}
+
+
+def lane_masks(R, P):
+    """AVX-SHELL/lane-mask: a per-lane verdict collected with a movemask intrinsic has one bit per lane; it is not converted
+    to an integer type with fewer bits than lanes (the upper lanes' failures would be dropped: an illegal character in the
+    second half of a 32-character vector accepted).  Every function of the vectorised unit."""
+    n = 0
+    for f in P.functions_in(AVX):
+        for b in f.blocks.values():
+            for el in b.elems:
+                for x in f.walk(el):
+                    t_ = None
+                    inner = None
+                    if x["k"] == "cast":
+                        inner, t_ = RU.uncast(f, x["a"][0]), f.unit.types[x["t"]] if x.get("t", -1) >= 0 else {}
+                    elif x["k"] == "decl":
+                        for v in x["vars"]:
+                            if v.get("init") is not None:
+                                i_ = RU.uncast(f, v["init"])
+                                while i_ is not None and i_["k"] == "cast":
+                                    i_ = RU.uncast(f, i_["a"][0])
+                                if i_ is not None and i_["k"] == "call" and i_.get("callee") in LANES:
+                                    inner, t_ = i_, f.unit.types[v["t"]]
+                    while inner is not None and inner["k"] == "cast":
+                        inner = RU.uncast(f, inner["a"][0])
+                    if inner is not None and inner["k"] == "call" and inner.get("callee") in LANES and t_ and "w" in t_:
+                        n += 1
+                        R.check(t_["w"] >= LANES[inner["callee"]], "AVX-SHELL", "%s:lane-mask-keeps-every-lane:line%d" % (f.name, x.get("loc", [0])[0]), where(f, x),
+                                "the %d lane bits fit the %d-bit type they are kept in" % (LANES[inner["callee"]], t_["w"]),
+                                "the %d per-lane bits of %s are narrowed to %d bits: failures in the upper lanes are dropped, malformed text in that part of a vector is accepted by the vectorised path only" % (LANES[inner["callee"]], inner["callee"], t_["w"]))
+    R.check(True, "AVX-SHELL", "lane-masks", AVX, "%d lane-mask conversions looked at; none narrower than its lanes" % n)
+
+
 def avx_shell(R, P):
+    lane_masks(R, P)
     hooks = AvxHooks()
     for name in ("aws_common_private_base64_encode_sse41", "aws_common_private_base64_decode_sse41"):
         f = P.fn(name)
@@ -835,6 +933,10 @@ def analyse(ctx, replace=None, only=None):
         avx_shell(R, P)
     if on("CHUNK"):
         chunk(R, P)
+    if want is None:
+        # the codecs' own buffer accesses (C04's BOUND sweep, restricted to this file): an encoder / decoder that writes past
+        # the capacity it checked, or reads past the text, breaks the round trip before it breaks anything else
+        C04.analyse(ctx, replace=replace, only={"files": [ENC], "rules": []})
 
 
 MUTANTS = [
